@@ -100,6 +100,7 @@ type concOps struct {
 }
 
 func (o *concOps) ReadRemote(path string) ([]byte, error) {
+	privateOp("ReadRemote", path)
 	rr := httptest.NewRecorder()
 	req := httptest.NewRequest("GET", "http://sum.example"+path, nil)
 	o.srv.ServeHTTP(rr, req)
@@ -121,6 +122,7 @@ func (o *concOps) ReadRemote(path string) ([]byte, error) {
 }
 
 func (o *concOps) ReadConfig(file string) ([]byte, error) {
+	privateOp("ReadConfig", file)
 	o.s.mu.Lock()
 	defer o.s.mu.Unlock()
 	if file == "key" {
@@ -133,6 +135,7 @@ func (o *concOps) ReadConfig(file string) ([]byte, error) {
 }
 
 func (o *concOps) WriteConfig(file string, old, new []byte) error {
+	privateOp("WriteConfig", file)
 	o.s.mu.Lock()
 	defer o.s.mu.Unlock()
 	if file != o.s.name+"/latest" {
@@ -152,6 +155,7 @@ func (o *concOps) WriteConfig(file string, old, new []byte) error {
 }
 
 func (o *concOps) ReadCache(file string) ([]byte, error) {
+	privateOp("ReadCache", file)
 	o.s.mu.Lock()
 	defer o.s.mu.Unlock()
 	if k, ok := o.keyOf(file); ok {
@@ -165,6 +169,7 @@ func (o *concOps) ReadCache(file string) ([]byte, error) {
 }
 
 func (o *concOps) WriteCache(file string, data []byte) {
+	privateOp("WriteCache", file)
 	o.s.mu.Lock()
 	defer o.s.mu.Unlock()
 	o.s.disk[file] = append([]byte(nil), data...)
@@ -232,6 +237,7 @@ func execConcRun(in runIn, ev func(k string, f any)) []core.Violation {
 	var wg sync.WaitGroup
 	var vmu sync.Mutex
 	var vs []core.Violation
+	takePrivateFound()
 	start := make(chan struct{})
 	for g, j := range jobs {
 		wg.Add(1)
@@ -247,7 +253,11 @@ func execConcRun(in runIn, ev func(k string, f any)) []core.Violation {
 			store.mu.Lock()
 			store.emit("LookupStart", map[string]any{"g": g + 1, "key": j.k})
 			store.mu.Unlock()
+			if skip {
+				privateNow.Store(gid(), fmt.Sprintf("Lookup(%s,%s) by goroutine %d", m.path, vers, g+1))
+			}
 			lines, err := clients[j.c].Lookup(m.path, vers)
+			privateNow.Delete(gid())
 			want := sumworld.Lines(gosumLines(m.path, m.vers), m.path, vers)
 			cls := "other"
 			if err == nil && core.Eq(lines, want) {
@@ -283,6 +293,9 @@ func execConcRun(in runIn, ev func(k string, f any)) []core.Violation {
 	}
 	vs = append(vs, store.viol...)
 	store.mu.Unlock()
+	for _, f := range takePrivateFound() {
+		vs = append(vs, core.Violation{Sig: "c14:skip-not-silent", What: "external operation for a path matching the private pattern list: " + f})
+	}
 	for i := range vs {
 		vs[i].What = fmt.Sprintf("%s [run seed=%d run=%d clients=%d goroutines=%d height=%d]", vs[i].What, in.Seed, in.Run, nclients, ngo, height)
 	}
